@@ -109,6 +109,20 @@ def evaluate(case):
             fails.append("fourier_transform: an integer-typed output grid gives different (truncated) values than the same grid as floats")
     except Exception as ex:  # noqa: BLE001
         fails.append(f"fourier_transform: an integer-typed output grid raises {type(ex).__name__}")
+    # "every input grid": a grid of dyadic values (multiples of 1/64, exactly representable and exactly subtractable in single precision)
+    # held in a float32 array (as read from an HDF5/NeXus file) is the same grid as its float64 copy
+    xd = np.rint(x[0] * 64) / 64 + np.concatenate([[0.0], np.cumsum(np.maximum(1.0, np.rint(np.diff(x) * 64))) / 64])
+    if np.abs(xd).max() < 4096:
+        _, v64, _ = tr.fourier_transform(xd, y, xo)
+        try:
+            _, v32, _ = tr.fourier_transform(xd.astype(np.float32), y, xo)
+            scd = float(np.sum(np.abs(weights(xd)) * np.abs(y))) + 1e-300
+            if np.asarray(v32).shape != np.asarray(v64).shape or exceeds(np.abs(np.asarray(v32, dtype=float) - np.asarray(v64)).max(), 1e-12 * scd):
+                k = int(np.argmax(np.abs(np.asarray(v32, dtype=float) - np.asarray(v64))))
+                fails.append(f"fourier_transform: a dyadic input grid held in a float32 array gives {np.asarray(v32)[k]!r} at x'={xo[k]!r}, "
+                             f"the same grid as float64 {np.asarray(v64)[k]!r} (trapezoid sine quadrature {direct(xd, y, xo[k])!r})")
+        except Exception as ex:  # noqa: BLE001
+            fails.append(f"fourier_transform: a float32 input grid raises {type(ex).__name__}")
     ft = case.get("fort")
     if ft:
         import fortran
